@@ -40,11 +40,15 @@ func (c *PointerCodec) Write(w *WriteBuf, p unsafe.Pointer) {
 	// need to worry about writing the union selector.
 	pp := *(*unsafe.Pointer)(p)
 	if pp == nil {
-		switch c.Codec.(type) {
+		switch inner := c.Codec.(type) {
 		case *arrayCodec, *MapCodec:
 			// Pointers to slices and maps aren't nullable in the schema, so
 			// a nil pointer is written as an empty array or map.
 			w.Varint(0)
+		case *PointerCodec:
+			// Pointer to pointer: the inner codec knows what nil looks like.
+			var null unsafe.Pointer
+			inner.Write(w, unsafe.Pointer(&null))
 		}
 		return
 	}
